@@ -8,7 +8,7 @@ Waiting part (C10) ops: ["add",name,amount] | ["reserve",{...}] | ["release",i] 
 """
 from simprocesd.model import Environment, ResourceManager
 
-from vlib.runner import Violation
+from vlib.runner import PROGRESS, Violation
 from vlib.weights import Weights, installed
 
 NAMES = ['a', 'b', 'c', 'new', 'zzz']
@@ -40,6 +40,7 @@ class Pools:
 
     def step(self, op):
         rm = self.rm
+        PROGRESS[0] += 1
         self.c['ops'] += 1
         k = op[0]
         if k == 'release' and not self.res:
@@ -318,6 +319,7 @@ class RealWaiters:
             self.c['from_inside'] += 1
 
         def cb(rm, request):
+            PROGRESS[0] += 1
             self.calls[wid] = self.calls.get(wid, 0) + 1
             if self.calls[wid] > 1:
                 raise Violation('C10.once', f'callback of waiter {wid} ({req}) invoked {self.calls[wid]} times '
